@@ -123,6 +123,29 @@ class ArgumentError(Exception):
 SUFFIXES = ["KiB", "MiB", "GiB", "TiB", "PiB", "EiB", "ZiB", "YiB"]
 
 
+def hash_bytes(value):
+    """
+    Return a hash string read from a metafile as bytes.
+
+    The decoder hands back text for every byte string that happens to be
+    valid UTF-8; piece strings, roots and layers are binary and compared
+    with digests.
+
+    Parameters
+    ----------
+    value : bytes | str
+        the decoded value
+
+    Returns
+    -------
+    bytes
+        the same value as bytes
+    """
+    if isinstance(value, str):
+        return value.encode("utf-8")
+    return value
+
+
 def humanize_bytes(amount: int) -> str:
     """
     Convert integer into human readable memory sized denomination.
